@@ -741,3 +741,65 @@ def rule_ag_numparse(cx, rep, port='py'):
             else:
                 rep.undecided(cname + ' integer mode', x, 'start_with_int argument `{}` not constant'.format(node_text(a0, 30)))
     rep.require_count('exact aggregators with a NumHandler', n_exact, 4, cls)
+
+
+def rule_ag_numparse_js(cx, rep, port='js'):
+    """javascript parse_number: the value is converted with Number(val) and rejected exactly when that gives NaN.  A further gate in
+    front of the conversion (a regex the text has to match) narrows the accepted numerals: exponent notation, a leading `+` or `.`,
+    which Number() and python's float() both take."""
+    from .. import pathsem
+    from .. import regexlang as R
+    from .pa import regexes_of
+    p = cx.port('js')
+    mod = cx.engine_mod('js')
+    fd = p.func(mod, 'parse_number')
+    if not fd.args.args:
+        raise Undecided('anchor vanished: parse_number(val)', fd)
+    val = fd.args.args[0].arg
+    ps = pathsem.paths(fd)
+    if ps is None:
+        rep.undecided('conversion', fd, 'parse_number is not summarisable as paths')
+        return
+
+    def is_conv(e):
+        return isinstance(e, ast.Call) and dotted(e.func) == 'Number' and len(e.args) == 1 and is_name(e.args[0], val)
+
+    def is_nan_test(e):
+        return isinstance(e, ast.Call) and dotted(e.func) in ('isNaN', 'Number.isNaN') and len(e.args) == 1 and is_conv(e.args[0])
+    rets = [q for q in ps if q.kind == 'return']
+    raises = [q for q in ps if q.kind == 'raise']
+    feasible_rets = [q for q in rets if not (isinstance(q.value, ast.Name) and q.value.id == 'NaN')]
+    if not feasible_rets or not raises:
+        rep.undecided('conversion', fd, 'no converting / rejecting path found')
+        return
+    lossy = [q for q in feasible_rets if any(isinstance(x, ast.Call) and dotted(x.func) in ('parseInt', 'Math.floor', 'Math.round', 'Math.trunc') for x in ast.walk(q.value))]
+    if lossy:
+        rep.violated('conversion', lossy[0].node, 'parse_number returns `{}`: fractions are cut off before MIN/MAX/SUM/AVG see the value'.format(node_text(lossy[0].value, 60)))
+    elif all(is_conv(q.value) for q in feasible_rets):
+        rep.holds('conversion', fd, 'every value returned is Number(val)')
+    else:
+        rep.undecided('conversion', feasible_rets[0].node, 'returned value `{}` is not Number(val)'.format(node_text(feasible_rets[0].value, 60)))
+    # grounds for rejection other than NaN
+    pats = regexes_of(cx, 'js', fd, depth=0)
+    extra = []
+    for q in raises + feasible_rets:
+        for a_, pol in pathsem.atoms(q.conds):
+            if is_nan_test(a_) or val not in names_in(a_):
+                continue
+            if isinstance(a_, ast.Call) and dotted(a_.func) in ('isNaN', 'Number.isNaN'):
+                continue
+            extra.append((q, a_, pol))
+    if not extra:
+        rep.holds('rejection grounds', fd, 'a value is rejected exactly when Number(val) is NaN')
+        return
+    numerals = ['1e5', '+1', '.5', '1E-3', '5.', '-.5e2', '12']
+    for pat, ic, node in pats:
+        try:
+            lang = R.Lang(pat, flavour='js')
+            rejected = [w for w in numerals if not R.accepts(lang, w)]
+        except R.Unsupported:
+            continue
+        if rejected and '12' not in rejected:
+            rep.violated('rejection grounds', node, 'parse_number converts only text matching `{}`, which excludes {}: numerals that Number() and the python port accept are rejected (or the aggregate fails on them)'.format(pat, ', '.join(repr(w) for w in rejected)))
+            return
+    rep.undecided('rejection grounds', extra[0][0].node, 'values are also told apart by `{}`, which is not a recognised test'.format(node_text(extra[0][1], 60)))
